@@ -2790,8 +2790,11 @@ void Validator::ValidatorImpl::buildComponentIdMap(const ComponentPtr &component
                 std::string s1 = item->name() + component->name();
                 std::string s2 = equiv->name() + equivParent->name();
                 std::string mappingId = Variable::equivalenceMappingId(item, equiv);
+                // Concatenated names can be equal for different variables ('x' in 'bc' and 'xb' in 'c'): break the tie so that
+                // exactly one of the two directions of an equivalence is examined.
+                bool firstOfPair = (s1 < s2) || ((s1 == s2) && (item.get() < equiv.get()));
                 // Variable mapping.
-                if ((s1 < s2) && !mappingId.empty()) {
+                if (firstOfPair && !mappingId.empty()) {
                     std::string mappingDescription =
                         "between variable '" + item->name() + "' in component '" + component->name()
                         + "' and variable '" + equiv->name() + "' in component '" + equivParent->name() + "'";
@@ -2809,8 +2812,8 @@ void Validator::ValidatorImpl::buildComponentIdMap(const ComponentPtr &component
                 }
                 // Connections.
                 auto connectionId = Variable::equivalenceConnectionId(item, equiv);
-                std::string connection = component->name() < equivParent->name() ? component->name() + equivParent->name() : equivParent->name() + component->name();
-                if ((s1 < s2) && !connectionId.empty() && (reportedConnections.count(connection) == 0)) {
+                std::string connection = component->name() < equivParent->name() ? component->name() + "\n" + equivParent->name() : equivParent->name() + "\n" + component->name();
+                if (firstOfPair && !connectionId.empty() && (reportedConnections.count(connection) == 0)) {
                     std::string connectionDescription =
                         "between components '" + component->name() + "' and '" + equivParent->name()
                         + "' because of variable equivalence between variables '" + item->name()
